@@ -43,6 +43,9 @@ Definition qexp_bounds (x : Q) : Q * Q :=
 Definition LN2PI_LO : Q := 18378770664 # 10000000000.
 Definition LN2PI_HI : Q := 18378770665 # 10000000000.
 
+(** ln 10 to 1e-12 (unit changes of the Kalman cases; the error is far below the tolerance) *)
+Definition LN10 : Q := 2302585092994 # 1000000000000.
+
 (** |lml - (-(quad + ln det + n ln 2pi)/2)| <= tol, decided through exp enclosures:
     det in [exp(-2 lml - quad - n ln2pi - 2 tol), exp(-2 lml - quad - n ln2pi + 2 tol)] *)
 Definition lml_ok (tol : Q) (lml quadv detv : Q) (n : nat) : bool :=
@@ -56,7 +59,10 @@ Inductive ssmcase :=
    exp(log marginal), a state path with exp(its sequence log prob), and the probability backward sampling assigns to it *)
 | CHmm (K : nat) (pi0 : list Q) (A : list (list Q)) (E : list (list Q)) (ys : list nat)
        (filt : list (list Q)) (marg : Q) (path : list nat) (seqp : Q) (ffbsp : Q)
-| CKal (s : lgssm) (ys : list vec) (fm : list vec) (fc : list mat) (sm : list vec) (sc : list mat) (lml : Q)
+(* Kalman: the model [s] and observations [ys] in O(1) units; the implementation was run on the same problem expressed
+   in units of 10^-k (means and observations times 10^-k, covariances times 10^-2k, A and C unchanged) and returned
+   fm fc sm sc lml in those units *)
+| CKal (k : nat) (s : lgssm) (ys : list vec) (fm : list vec) (fc : list mat) (sm : list vec) (sc : list mat) (lml : Q)
 (* the step models iterated over time through assess: discrete_hmm on a state path / observations (exp of the
    summed log densities), linear_gaussian on a state sequence / observations (summed log density) *)
 | CHmmStep (K : nat) (pi0 : list Q) (A : list (list Q)) (E : list (list Q)) (ys path : list nat) (stepp : Q)
@@ -96,10 +102,15 @@ Definition check_ssm (c : ssmcase) : bool * bool * bool :=
                                   (seq 0 K)))
                    (seq 0 T) in
       (model_ok, spec_ok, spec_ok)
-  | CKal s ys fm fc sm sc lml =>
+  | CKal k s ys fm0 fc0 sm0 sc0 lml0 =>
       let ks := kfilter s ys in
       let T := length ys in
       let d_obs := length (hd [] ys) in
+      (* back to the units of [s]: x = 10^k x', Sigma = 10^2k Sigma', log p(y) = log p'(y') - n k ln 10 *)
+      let u := inject_Z (10 ^ Z.of_nat k) in
+      let fm := map (map (Qmult u)) fm0 in let sm := map (map (Qmult u)) sm0 in
+      let fc := map (map (map (Qmult (u * u)))) fc0 in let sc := map (map (map (Qmult (u * u)))) sc0 in
+      let lml := lml0 - inject_Z (Z.of_nat (T * d_obs * k)) * LN10 in
       let model_ok :=
         Nat.eqb (length fm) T &&
         forallb (fun t => vclose TOL (nth t fm []) (f_mean (nth t ks {| f_mean := []; f_cov := []; quad := 0; sdet := 1 |}))
